@@ -148,6 +148,30 @@ Proof.
     + split; [contradiction|]. intros (k & Hk & Hx & Hxe). nia.
 Qed.
 
+(* the enumeration loop in int64 arithmetic, as repaired: no wrap for ANY int64 start / end and step >= 1 *)
+Lemma enum_range_above fuel st e sp : e < st -> enum_range fuel st e sp = [].
+Proof. intros H. destruct fuel; cbn [enum_range]; [reflexivity|]. destruct (Z.leb_spec st e); [lia|reflexivity]. Qed.
+Theorem enum_range_i64_exact : forall fuel st e sp,
+  - two63 <= st < two63 -> - two63 <= e < two63 -> 1 <= sp < two63 ->
+  enum_range_i64 fuel st e sp = enum_range fuel st e sp.
+Proof.
+  assert (T64 : two64 = 2 * two63) by reflexivity.
+  induction fuel as [|f IH]; intros st e sp Hst He Hsp; cbn [enum_range_i64 enum_range]; [reflexivity|].
+  destruct (Z.leb_spec st e) as [Hle|Hgt]; [|reflexivity]. f_equal.
+  destruct (Z.ltb_spec (two63 - 1 - sp) st) as [Hov|Hok].
+  - symmetry. apply enum_range_above. lia.
+  - assert (W : wrap_i64 (st + sp) = st + sp).
+    { unfold wrap_i64. rewrite Z.mod_small; lia. }
+    rewrite W. apply IH; lia.
+Qed.
+(* ... and as it was (F19): "MaxInt64-1:MaxInt64" denotes two values, the loop is still running after a thousand *)
+Example enum_range_pinned_refuted :
+  let st := two63 - 2 in let e := two63 - 1 in
+  length (enum_range (Z.to_nat ((e - st) / 1 + 1)) st e 1) = 2%nat /\
+  length (enum_range_pinned 1000 st e 1) = 1000%nat /\
+  enum_range_i64 1000 st e 1 = [st; e].
+Proof. vm_compute. repeat split; reflexivity. Qed.
+
 Theorem enum_range_exact st e sp : 1 <= sp -> st <= e ->
   forall x, In x (enum_range (Z.to_nat ((e - st) / sp + 1)) st e sp) <->
             exists k, 0 <= k /\ x = st + k * sp /\ x <= e.
